@@ -102,10 +102,10 @@ Lemma meqv_trans : forall a b c, meqv a b -> meqv b c -> meqv a c.
 Proof. intros a b c H1 H2 k. rewrite H1. apply H2. Qed.
 
 Lemma reqv_refl : forall r, reqv r r.
-Proof. intros [m|l]; cbn; [apply meqv_refl|reflexivity]. Qed.
+Proof. intros [m|l|]; cbn; [apply meqv_refl|reflexivity|exact I]. Qed.
 Lemma reqv_trans : forall a b c, reqv a b -> reqv b c -> reqv a c.
 Proof.
-  intros [x|x] [y|y] [z|z]; cbn; intros H1 H2; try contradiction.
+  intros [x|x|] [y|y|] [z|z|]; cbn; intros H1 H2; try contradiction; try exact I.
   - eapply meqv_trans; eassumption.
   - congruence.
 Qed.
@@ -184,22 +184,24 @@ Qed.
 (* ---- what each Apply handler does ---- *)
 Lemma apply_change_inv : forall c s cs,
   (exists s', apply_change c s cs = Failed s' /\ s' = s) \/
+  apply_change c s cs = Applied s (ORev []) \/
   (exists m0 m1 rev, c_type c = TModel /\ start c s = Some (RModel m0) /\ change_loop cs m0 = (m1, rev) /\
      ((rev = [] /\ apply_change c s cs = Applied s (ORev [])) \/
       (rev <> [] /\ exists ix, apply_change c s cs = Applied (St (Some (RModel m1)) ix) (ORev rev)))).
 Proof.
   intros c s cs. unfold apply_change.
   destruct (c_type c); [|left; eauto].
-  destruct (start c s) as [[m0|l]|]; [|left; eauto|left; eauto].
+  destruct (start c s) as [[m0|l|]|]; [|left; eauto| |left; eauto].
+  2:{ destruct (existsb _ cs); [left; eauto|right; left; reflexivity]. }
   destruct (change_loop cs m0) as [m1 rev] eqn:L.
   destruct rev as [|x rev]; cbn [is_nil].
-  - right. exists m0, m1, []. repeat split; auto.
+  - right. right. exists m0, m1, []. repeat split; auto.
   - destruct (idxs c) as [ks|].
     + destruct (decode c (RModel m0)) as [b0|]; [destruct (decode c (RModel m1)) as [a0|]|].
-      * right. exists m0, m1, (x :: rev). repeat split; auto. right. split; [discriminate|]. eauto.
+      * right. right. exists m0, m1, (x :: rev). repeat split; auto. right. split; [discriminate|]. eauto.
       * left. eauto.
       * left. eauto.
-    + right. exists m0, m1, (x :: rev). repeat split; auto. right. split; [discriminate|]. eauto.
+    + right. right. exists m0, m1, (x :: rev). repeat split; auto. right. split; [discriminate|]. eauto.
 Qed.
 
 Lemma served_start : forall c s, served (c_def c) (st_val s) = start c s.
@@ -221,8 +223,9 @@ Proof.
   - (* change *)
     destruct (c_type c) eqn:T; [|reflexivity].
     destruct cs as [|c0 cs0]; [reflexivity|]. cbn [is_nil]. set (cs := c0 :: cs0).
-    destruct (apply_change_inv c s cs) as [[s' [H E]]|[m0 [m1 [rev [_ [ST [L [[R H]|[R [ix H]]]]]]]]]]; rewrite H.
+    destruct (apply_change_inv c s cs) as [[s' [H E]]|[H|[m0 [m1 [rev [_ [ST [L [[R H]|[R [ix H]]]]]]]]]]]; rewrite H.
     + cbn. exact E.
+    + cbn. reflexivity.
     + cbn. reflexivity.
     + destruct rev as [|x rev]; [congruence|]. cbn [is_nil o_pub o_state sev_of_pub].
       rewrite ST. cbn [spec_step]. eexists. split; [reflexivity|].
@@ -232,7 +235,7 @@ Proof.
     destruct (c_type c) eqn:T; [reflexivity|].
     destruct (i <? 0)%Z; [reflexivity|].
     unfold apply_add. rewrite T.
-    destruct (start c s) as [[m|l]|] eqn:ST; cbn.
+    destruct (start c s) as [[m|l|]|] eqn:ST; cbn.
     + reflexivity.
     + destruct (len l <? Z.to_N i) eqn:B; cbn; [reflexivity|].
       rewrite ltb_leb in B. apply negb_false_iff in B. rewrite B.
@@ -240,11 +243,14 @@ Proof.
     + destruct (0 <? Z.to_N i) eqn:B; cbn; [reflexivity|].
       assert (Z.to_N i = 0) as Z0 by (apply N.ltb_ge in B; lia). rewrite Z0. cbn.
       eexists. split; [reflexivity|]. unfold start. cbn. reflexivity.
+    + destruct (0 <? Z.to_N i) eqn:B; cbn; [reflexivity|].
+      assert (Z.to_N i = 0) as Z0 by (apply N.ltb_ge in B; lia). rewrite Z0. cbn.
+      eexists. split; [reflexivity|]. unfold start. cbn. reflexivity.
   - (* remove *)
     destruct (c_type c) eqn:T; [reflexivity|].
     destruct (i <? 0)%Z; [reflexivity|].
     unfold apply_remove. rewrite T.
-    destruct (start c s) as [[m|l]|] eqn:ST; cbn; try reflexivity.
+    destruct (start c s) as [[m|l|]|] eqn:ST; cbn; try reflexivity.
     destruct (len l <=? Z.to_N i) eqn:B; cbn; [reflexivity|].
     rewrite ltb_leb, B. cbn.
     eexists. split; [reflexivity|]. unfold start. cbn. apply remove_at_spec.
@@ -272,16 +278,10 @@ Lemma spec_step_eqv : forall def a b e a',
   exists b', spec_step def b e = Some b' /\ veqv a' b'.
 Proof.
   intros def a b e a' H S.
-  destruct e as [vs|x i|i|d|]; destruct a as [[m|l]|]; destruct b as [[m2|l2]|];
-    cbn [veqv reqv] in H; try contradiction; cbn [spec_step] in *; try discriminate.
-  - inversion S; subst. eexists. split; [reflexivity|]. cbn. apply fold_supd_meqv. exact H.
-  - subst l2. eexists. split; [exact S|]. apply veqv_refl.
-  - eexists. split; [exact S|]. apply veqv_refl.
-  - subst l2. eexists. split; [exact S|]. apply veqv_refl.
-  - eexists. split; [exact S|]. apply veqv_refl.
-  - inversion S; subst. eexists. split; [reflexivity|]. apply veqv_refl.
-  - inversion S; subst. eexists. split; [reflexivity|]. apply veqv_refl.
-  - inversion S; subst. eexists. split; [reflexivity|]. apply veqv_refl.
+  destruct e as [vs|x i|i|d|]; destruct a as [[m|l|]|]; destruct b as [[m2|l2|]|];
+    cbn [veqv reqv] in H; try contradiction; cbn [spec_step] in *; try discriminate;
+    try subst l2; try (eexists; split; [exact S|]; apply veqv_refl).
+  inversion S; subst. eexists. split; [reflexivity|]. cbn. apply fold_supd_meqv. exact H.
 Qed.
 
 Lemma final_cons : forall c s e es, final c s (e :: es) = final c (o_state (fire c s e)) es.
@@ -385,8 +385,9 @@ Proof.
   intros c s e D V E. destruct e as [cs|v i|i|d|]; cbn [fire].
   - destruct (c_type c) eqn:T; [|exact V].
     destruct cs as [|c0 cs0]; [exact V|]. cbn [is_nil]. set (cs := c0 :: cs0) in *.
-    destruct (apply_change_inv c s cs) as [[s' [H E']]|[m0 [m1 [rev [_ [ST [L [[R H]|[R [ix H]]]]]]]]]]; rewrite H.
+    destruct (apply_change_inv c s cs) as [[s' [H E']]|[H|[m0 [m1 [rev [_ [ST [L [[R H]|[R [ix H]]]]]]]]]]]; rewrite H.
     + cbn. subst s'. exact V.
+    + cbn. exact V.
     + cbn. exact V.
     + destruct rev as [|x rev]; [congruence|]. cbn [is_nil o_state st_val ofits].
       pose proof (start_fits c s _ D V ST) as F0. unfold fits in *. rewrite T in *.
@@ -395,17 +396,19 @@ Proof.
   - destruct (c_type c) eqn:T; [exact V|].
     destruct (i <? 0)%Z; [exact V|].
     unfold apply_add. rewrite T.
-    destruct (start c s) as [[m|l]|] eqn:ST; cbn.
+    destruct (start c s) as [[m|l|]|] eqn:ST; cbn.
     + exact V.
     + destruct (len l <? Z.to_N i); cbn; [exact V|].
       pose proof (start_fits c s _ D V ST) as F0. unfold fits in *. rewrite T in *.
       apply fits_insert; assumption.
     + destruct (0 <? Z.to_N i); cbn; [exact V|].
       unfold fits. rewrite T. apply fits_insert; [exact E|reflexivity].
+    + destruct (0 <? Z.to_N i); cbn; [exact V|].
+      unfold fits. rewrite T. apply fits_insert; [exact E|reflexivity].
   - destruct (c_type c) eqn:T; [exact V|].
     destruct (i <? 0)%Z; [exact V|].
     unfold apply_remove. rewrite T.
-    destruct (start c s) as [[m|l]|] eqn:ST; cbn; try exact V.
+    destruct (start c s) as [[m|l|]|] eqn:ST; cbn; try exact V.
     destruct (len l <=? Z.to_N i); cbn; [exact V|].
     pose proof (start_fits c s _ D V ST) as F0. unfold fits in *. rewrite T in *.
     apply fits_remove. exact F0.
@@ -447,7 +450,7 @@ Proof.
 Qed.
 Lemma fits_decode : forall c r, fits c r = true -> decode c r = Some r.
 Proof.
-  intros c r. unfold fits, decode. destruct (c_type c), r as [m|l]; try discriminate; intros H.
+  intros c r. unfold fits, decode. destruct (c_type c), r as [m|l|]; try discriminate; intros H.
   - rewrite (fits_dec_model _ _ H). reflexivity.
   - rewrite (fits_dec_list _ _ H). reflexivity.
 Qed.
@@ -458,7 +461,7 @@ Lemma dec_model_any : forall m, dec_model TyAny m = Some m.
 Proof. induction m as [|[k v] m IH]; cbn [dec_model vdec]; [reflexivity|]. rewrite IH. reflexivity. Qed.
 Lemma decode_any : forall c r r', c_ty c = TyAny -> decode c r = Some r' -> r' = r.
 Proof.
-  intros c r r' T. unfold decode. rewrite T. destruct (c_type c), r as [m|l]; try discriminate.
+  intros c r r' T. unfold decode. rewrite T. destruct (c_type c), r as [m|l|]; try discriminate; try (cbn; congruence).
   - rewrite dec_model_any. cbn. congruence.
   - rewrite dec_list_any. cbn. congruence.
 Qed.
@@ -567,7 +570,8 @@ Proof.
   intros c s cs l ND. cbn [fire].
   destruct (c_type c) eqn:T; [|discriminate].
   destruct cs as [|c0 cs0]; [discriminate|]. cbn [is_nil]. set (cs := c0 :: cs0) in *.
-  destruct (apply_change_inv c s cs) as [[s' [H E']]|[m0 [m1 [rev [_ [ST [L [[R H]|[R [ix H]]]]]]]]]]; rewrite H.
+  destruct (apply_change_inv c s cs) as [[s' [H E']]|[H|[m0 [m1 [rev [_ [ST [L [[R H]|[R [ix H]]]]]]]]]]]; rewrite H.
+  - discriminate.
   - discriminate.
   - discriminate.
   - destruct rev as [|x rev]; [congruence|]. cbn [is_nil o_call o_pub]. intros E. inversion E; subst l.
@@ -614,13 +618,13 @@ Proof.
   - intros H. destruct (c_type c) eqn:T; [reflexivity|].
     destruct (i <? 0)%Z; [reflexivity|]. cbn [orb] in H.
     unfold apply_add. rewrite T.
-    destruct (start c s) as [[m|l]|]; try discriminate.
+    destruct (start c s) as [[m|l|]|]; try discriminate.
     + rewrite H. reflexivity.
     + cbn [len length N.of_nat]. rewrite H. reflexivity.
   - intros H. destruct (c_type c) eqn:T; [reflexivity|].
     destruct (i <? 0)%Z; [reflexivity|]. cbn [orb] in H.
     unfold apply_remove. rewrite T.
-    destruct (start c s) as [[m|l]|]; try discriminate; [|reflexivity].
+    destruct (start c s) as [[m|l|]|]; try discriminate; [|reflexivity].
     rewrite H. reflexivity.
   - intros H. unfold apply_create. unfold start in H.
     destruct (st_val s); [reflexivity|]. destruct (c_def c); [reflexivity|discriminate].
@@ -801,7 +805,8 @@ Proof.
   destruct e as [cs|v i|i|d|]; cbn [fire]; rewrite ?T; try exact OK.
   - destruct cs as [|c0 cs0]; [exact OK|]. cbn [is_nil]. set (cs := c0 :: cs0) in *.
     unfold apply_change, start. rewrite T, D, IXS.
-    destruct (st_val s) as [[m0|l]|] eqn:V; try exact OK.
+    destruct (st_val s) as [[m0|l|]|] eqn:V; try exact OK.
+    2:{ destruct (existsb _ cs); exact OK. }
     destruct (change_loop cs m0) as [m1 rev] eqn:L.
     destruct rev as [|x rev]; cbn [is_nil]; [exact OK|].
     destruct (decode c (RModel m0)) as [b0|] eqn:D0; [|exact OK].
